@@ -1767,3 +1767,141 @@ Example ex_redirect_edges :
   map tp_redirect_status [0; 200; 300; 301; 302; 303; 304; 305; 306; 307; 308; 401; 999] =
   [302; 302; 302; 301; 302; 303; 302; 302; 302; 307; 302; 302; 302].
 Proof. reflexivity. Qed.
+
+(* ---------------------------------------------------------------------------------- *)
+(* per-transaction body settings changed by ctl (tb_step)                               *)
+(* ---------------------------------------------------------------------------------- *)
+
+Lemma body_of_nil c t : tp_body_of c [] t = mkBody (c_reqacc c) (c_reqlim c) (c_respacc c) (c_resplim c).
+Proof.
+  unfold tp_body_of. generalize (mkBody (c_reqacc c) (c_reqlim c) (c_respacc c) (c_resplim c)).
+  induction t as [|e t IH]; intro b; cbn [fold_left]; [reflexivity|].
+  rewrite IH. destruct e as [p|p r [| |m]|n]; reflexivity.
+Qed.
+
+(* without body ctls the layered machine is the plain one *)
+Lemma tb_step_nil c s k : tb_step c [] s k = tp_step c s k.
+Proof. unfold tb_step. rewrite body_of_nil. destruct k; reflexivity. Qed.
+
+Lemma tb_step_pres (P : tp_state -> Prop) c bm :
+  (forall s k, P s -> P (fst (tp_step c s k))) ->
+  (forall s z, P s -> P (set_reqlen s z)) -> (forall s z, P s -> P (set_resplen s z)) ->
+  (forall s, P s -> P (fst (tp_prb c s))) -> (forall s, P s -> P (fst (tp_prespb c s))) ->
+  (forall s st, P s -> P (tp_limit_intr s st)) ->
+  forall s k, P s -> P (fst (tb_step c bm s k)).
+Proof.
+  intros Hs Hq Hr Hb Hpb Hl s k H. unfold tb_step.
+  destruct k; try apply Hs; try exact H; apply body_write_pres; auto.
+Qed.
+
+Lemma tb_run_from_pres (P : tp_state -> Prop) c bm :
+  (forall s k, P s -> P (fst (tb_step c bm s k))) ->
+  forall ks s, P s -> P (tb_run_from c bm s ks).
+Proof.
+  intros Hs ks. induction ks as [|k ks IH]; intros s H; cbn; [exact H | apply IH, Hs, H].
+Qed.
+
+Lemma inv_tb_run c bm ks : Inv (tb_run c bm ks).
+Proof.
+  unfold tb_run. apply (tb_run_from_pres Inv c bm); [|apply inv_init].
+  intros s k H. apply tb_step_pres; auto using inv_step, inv_prb, inv_prespb, inv_limit_intr.
+Qed.
+
+Lemma tb_first_disruptive_holds c bm ks :
+  st_intr (tb_run c bm ks) = tp_first_intr MOn (st_trace (tb_run c bm ks)).
+Proof. apply (inv_tb_run c bm ks). Qed.
+
+Lemma tb_no_eval_after_interrupt_holds c bm ks t1 t2 :
+  st_trace (tb_run c bm ks) = t1 ++ t2 -> tp_first_intr MOn t1 <> None ->
+  Forall (fun e => tp_late_ok e = true) t2.
+Proof.
+  intros E H. pose proof (inv_late _ _ _ _ (inv_tb_run c bm ks)) as L. rewrite E in L.
+  apply (after_ok_split t1 false t2 L). right. exact H.
+Qed.
+
+Lemma tb_interruption_final_step c bm s k i :
+  st_intr s = Some i -> st_intr (fst (tb_step c bm s k)) = Some i.
+Proof.
+  apply (tb_step_pres (fun s => st_intr s = Some i) c bm);
+    auto using final_step, final_prb, final_prespb, final_limit_intr.
+Qed.
+
+Lemma tb_interruption_final_run c bm ks ks' i :
+  st_intr (tb_run c bm ks) = Some i -> st_intr (tb_run c bm (ks ++ ks')) = Some i.
+Proof.
+  unfold tb_run, tb_run_from. rewrite fold_left_app.
+  apply (tb_run_from_pres (fun s => st_intr s = Some i) c bm). intros s k. apply tb_interruption_final_step.
+Qed.
+
+(* a request-body write that reaches the transaction's CURRENT limit (the WAF-wide one or the one a ctl
+   of an earlier rule set) with action Reject records and returns the 413 interruption, buffers nothing *)
+Lemma tb_limit_reject_req c bm s n :
+  let b := tp_body_of c bm (st_trace s) in
+  is_off s = false -> b_reqacc b = true -> c_reqact c = LReject -> st_intr s = None ->
+  b_reqlim b <> st_reqlen s -> (b_reqlim b <= st_reqlen s + n)%Z ->
+  let r := tb_step c bm s (KWReq n) in
+  st_intr (fst r) = Some (mkIntr 0 KDeny 413 []) /\
+  tp_ret_intr (snd r) = Some (mkIntr 0 KDeny 413 []) /\ st_reqlen (fst r) = st_reqlen s.
+Proof.
+  cbn zeta. intros Off Acc Act Hi Hne Hov. unfold tb_step, tp_body_write. rewrite Off, Acc, Act. cbn [negb].
+  destruct (Z.eqb_spec (b_reqlim (tp_body_of c bm (st_trace s))) (st_reqlen s)); [contradiction|].
+  destruct (Z.leb_spec (b_reqlim (tp_body_of c bm (st_trace s))) (st_reqlen s + n)); [|lia].
+  unfold tp_limit_intr. sx. rewrite Hi. sx. auto.
+Qed.
+
+Lemma tb_limit_reject_resp c bm s n :
+  let b := tp_body_of c bm (st_trace s) in
+  is_off s = false -> b_respacc b = true -> c_respact c = LReject -> st_intr s = None ->
+  b_resplim b <> st_resplen s -> (b_resplim b <= st_resplen s + n)%Z ->
+  let r := tb_step c bm s (KWResp n) in
+  st_intr (fst r) = Some (mkIntr 0 KDeny 500 []) /\
+  tp_ret_intr (snd r) = Some (mkIntr 0 KDeny 500 []) /\ st_resplen (fst r) = st_resplen s.
+Proof.
+  cbn zeta. intros Off Acc Act Hi Hne Hov. unfold tb_step, tp_body_write. rewrite Off, Acc, Act. cbn [negb].
+  destruct (Z.eqb_spec (b_resplim (tp_body_of c bm (st_trace s))) (st_resplen s)); [contradiction|].
+  destruct (Z.leb_spec (b_resplim (tp_body_of c bm (st_trace s))) (st_resplen s + n)); [|lia].
+  unfold tp_limit_intr. sx. rewrite Hi. sx. auto.
+Qed.
+
+Lemma tb_limit_below_req c bm s n :
+  let b := tp_body_of c bm (st_trace s) in
+  is_off s = false -> b_reqacc b = true -> b_reqlim b <> st_reqlen s -> (st_reqlen s + n < b_reqlim b)%Z ->
+  let r := tb_step c bm s (KWReq n) in
+  st_intr (fst r) = st_intr s /\ st_reqlen (fst r) = (st_reqlen s + n)%Z /\ st_trace (fst r) = st_trace s.
+Proof.
+  cbn zeta. intros Off Acc Hne Hlt. unfold tb_step, tp_body_write. rewrite Off, Acc. cbn [negb].
+  destruct (Z.eqb_spec (b_reqlim (tp_body_of c bm (st_trace s))) (st_reqlen s)); [contradiction|].
+  destruct (Z.leb_spec (b_reqlim (tp_body_of c bm (st_trace s))) (st_reqlen s + n)); [lia|]. sx. auto.
+Qed.
+
+Lemma tb_access_off c bm s n :
+  b_reqacc (tp_body_of c bm (st_trace s)) = false ->
+  fst (tb_step c bm s (KWReq n)) = s /\ tp_ret_intr (snd (tb_step c bm s (KWReq n))) = None.
+Proof. intro Acc. unfold tb_step, tp_body_write. rewrite Acc. destruct (is_off s); auto. Qed.
+
+(* the ctl takes effect while the request (response) headers phase has not been passed *)
+Lemma bctl_effect p b n a :
+  b_reqlim (tp_exec_bctl1 p b (BReqLimit n)) = (if p <=? 1 then n else b_reqlim b) /\
+  b_resplim (tp_exec_bctl1 p b (BRespLimit n)) = (if p <=? 3 then n else b_resplim b) /\
+  b_reqacc (tp_exec_bctl1 p b (BReqAcc a)) = (if p <=? 1 then a else b_reqacc b) /\
+  b_respacc (tp_exec_bctl1 p b (BRespAcc a)) = (if p <=? 3 then a else b_respacc b).
+Proof. unfold tp_exec_bctl1. destruct (p <=? 1), (p <=? 3); cbn; auto. Qed.
+
+(* end to end: WAF-wide limit 8, a phase-1 rule lowers it to 4; 5 bytes are rejected with 413 (before the
+   rule ran they are buffered), the interruption is final; a phase-2 ctl comes too late; F12 unchanged *)
+Definition ctl_waf (ph : N) (extra : list tp_item) : tp_waf :=
+  mkWaf MOn [] [ mkRaw None 1 ph CTrue None (IBody (BReqLimit 4) :: IDis DPass :: extra);
+                 mkRaw None 2 2 CTrue None [IDis DDeny] ]
+        true 8%Z LReject true 8%Z LReject.
+
+Example ex_ctl_limit :
+  let run w ks := tb_run (tp_compile w) (tp_compile_bmap w) ks in
+  let lim w ks := b_reqlim (tp_body_of (tp_compile w) (tp_compile_bmap w) (st_trace (run w ks))) in
+  lim (ctl_waf 1 []) [KPRH] = 4%Z /\
+  st_intr (run (ctl_waf 1 []) [KPRH; KWReq 5]) = Some (mkIntr 0 KDeny 413 []) /\
+  st_intr (run (ctl_waf 1 []) [KPRH; KWReq 5; KPRB; KLog]) = Some (mkIntr 0 KDeny 413 []) /\
+  st_intr (run (ctl_waf 1 []) [KWReq 5; KPRH]) = None /\
+  st_intr (run (ctl_waf 1 []) [KPRH; KWReq 3; KPRB]) = Some (mkIntr 2 KDeny 403 []) /\
+  lim (ctl_waf 2 []) [KPRH; KPRB] = 8%Z /\
+  st_intr (run (ctl_waf 1 [ICtl MDet]) [KPRH; KWReq 5]) = Some (mkIntr 0 KDeny 413 []).
+Proof. vm_compute. auto 10. Qed.
